@@ -132,6 +132,9 @@ func (f *Fragment) GetFullSamples(trex *TrexBox) ([]FullSample, error) {
 	if traf.Tfdt != nil {
 		baseTime = traf.Tfdt.BaseMediaDecodeTime()
 	}
+	if mdat.IsLazy() {
+		return nil, fmt.Errorf("mdat data is not in memory (lazy mode), use GetSampleInterval and MdatBox.ReadData")
+	}
 	moofStartPos := moof.StartPos
 	var samples []FullSample
 	for _, trun := range traf.Truns {
